@@ -1,15 +1,15 @@
 package core
 
 import (
-	"encoding/hex"
-	"strconv"
 	"encoding/binary"
+	"encoding/hex"
 	"encoding/json"
 	"fmt"
 	"math/rand"
 	"os"
 	"os/exec"
 	"path/filepath"
+	"strconv"
 	"strings"
 	"time"
 
